@@ -49,7 +49,7 @@ static Case decode(const hv::Bytes& b) {
 // environment derived from the case bytes (a pure function of them)
 
 static inline uint32_t mix(uint32_t a, uint32_t b) { uint32_t h = a * 2654435761u ^ (b + 0x9e3779b9u + (a << 6) + (a >> 2)); h ^= h >> 15; h *= 2246822519u; h ^= h >> 13; return h; }
-static const float UTILS[8] = {1.0f, 2.0f, 0.5f, 3.0f, 1.0f, 4.0f, 0.25f, 1.5f};
+static const float UTILS[8] = {1.0f, 2.0f, 0.5f, 3.0f, 0.1f, 4.0f, 0.3f, 0.7f};
 static const float RNDS[12] = {0.0f, 0.5f, 0.25f, 0.75f, 0.999999940395f /*1-2^-24*/, 0.99999988079f /*1-2^-23*/, 5.9604645e-8f /*2^-24*/, 0.3333333f, 0.6666667f, 0.125f, 0.9f, 0.1f};
 
 static void setEnv(Ctx& x, uint8_t envSeed, uint8_t rndSel, bool constantRnd = false) {
